@@ -6,6 +6,8 @@ Leaf node
   {"k": "doer"|"redoer"|"doify"|"doize"|"method",
    "tock": y0,                     doer's own tock attribute == value yielded at enter (ignored by schedulers)
    "enter": "ok"|"raise"|"ret",    "ret" (finish inside enter) only for generator kinds
+   "enter_act": action | absent,   a membership call made from the doer's ENTER context (Doer.enter(), or the code before
+                                   the first yield of a generator function), right after the enter event is logged
    "steps": [[action, y], ...],    step i = i-th recur: log, do action, then yield y (last step: finish per "end")
    "end": ["ret", v] | ["forever"]}
   action: None | ["raise"] | ["kbi"] | ["extend", up, [target...]] | ["remove", up, [target...]]
@@ -63,6 +65,8 @@ class Trace:
         self.raised = {}      # name -> 'Stop' | 'kbi' | 'call' : the doer's own code raised
         self.own_return = SeqSet(self)   # names whose own code returned (finished by itself), with trace position
         self.raised_seq = {}      # name -> trace position at which its own code raised
+        self.entering = []        # names whose enter context is in progress right now (innermost last)
+        self.nest = {}            # seq of an 'E' event -> names whose enter context was in progress when it was logged
 
     def log(self, code, name, sent=None, tymth=None):
         d = self.doist
@@ -74,6 +78,7 @@ class Trace:
                 t = "ERR"
         self.ev.append((len(self.ev), code, name, d.cycles if d is not None else -1, sent, t))
         if code == "E":
+            self.nest[len(self.ev) - 1] = tuple(self.entering)
             self.open.add(name)
         elif code == "X":
             self.open.discard(name)
@@ -108,6 +113,8 @@ class Ctx:
         self.parent = {}      # scheduler name -> its host scheduler (doist has none)
         self.pool = []
         self.doist = None
+        self.pending = []     # one set of names per extend() call in progress (innermost last): the doers it was given
+        self.acting = []      # names of the doers whose scripted membership call is on the Python stack (innermost last)
 
 
 def _resolve(ctx, host, me_name, targets):
@@ -138,9 +145,29 @@ def _host_up(ctx, name, up):
     return h
 
 
-def _act(ctx, name, action):
+def _enter_act(ctx, name, spec):
+    """The scripted membership call of a doer's ENTER context (spec["enter_act"], absent in old cases)."""
+    action = spec.get("enter_act")
+    tr = ctx.trace
+    tr.entering.append(name)
+    try:
+        if action is not None and ctx.host.get(name) is not None:
+            _act(ctx, name, action, where="enter")
+    finally:
+        tr.entering.pop()
+
+
+def _act(ctx, name, action, where="recur"):
     if action is None:
         return
+    ctx.acting.append(name)
+    try:
+        return _act1(ctx, name, action, where)
+    finally:
+        ctx.acting.pop()
+
+
+def _act1(ctx, name, action, where):
     a = action[0]
     if a == "raise":
         ctx.trace.raised[name] = "Stop"
@@ -163,15 +190,38 @@ def _act(ctx, name, action):
             if len(keep) != len(objs):
                 tr.skipped.append(("remove-own-ancestor", name))
             objs = keep
+            # removing ANOTHER doer whose own call is on the stack right now (this enter context was triggered by that
+            # doer's extend), or a DoDoer above such a doer: not a removal "of self", and it cannot be closed: undefined
+            busy = set()
+            for other in ctx.acting[:-1]:
+                if other == name:
+                    continue
+                busy.add(other)
+                h = ctx.host.get(other)
+                while h is not None and getattr(h, "vname", None):
+                    busy.add(h.vname)
+                    h = ctx.host.get(h.vname)
+            keep = [o for o in objs if vname(o) not in busy]
+            if len(keep) != len(objs):
+                tr.skipped.append(("remove-doer-on-the-stack", name))
+            objs = keep
         else:
             # re-adding a doer that is still running (it removed itself, or lives under another host): undefined
             keep = [o for o in objs if not (vname(o) in tr.open and o not in host.doers)]
             if len(keep) != len(objs):
                 tr.skipped.append(("extend-still-running", name))
             objs = keep
+            # ... and a doer that an extend() call still in progress further up the stack is about to enter (this enter
+            # context runs inside that call): it would end up running under two schedulers at once
+            keep = [o for o in objs if not any(vname(o) in names for names in ctx.pending)]
+            if len(keep) != len(objs):
+                tr.skipped.append(("extend-pending-in-outer-call", name))
+            objs = keep
         rec = {"op": a, "by": name, "host": getattr(host, "vname", "doist"),
                "args": [vname(o) for o in objs], "seq0": len(tr.ev),
-               "before": [vname(o) for o in host.doers], "cycle": ctx.doist.cycles}
+               "before": [vname(o) for o in host.doers], "cycle": ctx.doist.cycles, "where": where,
+               # called from an enter context that runs before the scheduler's first cycle (no doer has recurred yet)
+               "prerun": where == "enter" and not any(e[1] == "R" for e in tr.ev)}
         tr.calls.append(rec)
         if a == "extend":
             for o in objs:
@@ -181,6 +231,7 @@ def _act(ctx, name, action):
                     # re-attribute a lifecycle it is running under another scheduler.)
                     ctx.host[vname(o)] = host
                     ctx.host_log.append((len(tr.ev), vname(o), host))
+            ctx.pending.append({vname(o) for o in objs})
             try:
                 host.extend(objs)
             except BaseException as ex:
@@ -188,6 +239,7 @@ def _act(ctx, name, action):
                 rec["exc"] = type(ex).__name__
                 raise
             finally:
+                ctx.pending.pop()
                 rec["seq1"] = len(tr.ev)
                 rec["after"] = [vname(o) for o in host.doers]
         else:
@@ -227,6 +279,7 @@ def make_genfunc(ctx, name, spec):
         done = False
         try:
             tr.log("E", name, None, tymth)
+            _enter_act(ctx, name, spec)
             if spec["enter"] == "raise":
                 tr.raised[name] = "Stop"
                 raise Stop(name)
@@ -275,6 +328,7 @@ class ScriptDoer(doing.Doer):
     def enter(self, *, temp=None):
         self.i = 0
         self.ctx.trace.log("E", self.vname, None, self.tymth)
+        _enter_act(self.ctx, self.vname, self.spec)
         if self.spec["enter"] == "raise":
             self.ctx.trace.raised[self.vname] = "Stop"
             raise Stop(self.vname)
@@ -321,6 +375,7 @@ class ScriptReDoer(doing.Doer):
 
     def enter(self, *, temp=None):
         self.ctx.trace.log("E", self.vname, None, self.tymth)
+        _enter_act(self.ctx, self.vname, self.spec)
         if self.spec["enter"] == "raise":
             self.ctx.trace.raised[self.vname] = "Stop"
             raise Stop(self.vname)
@@ -381,7 +436,13 @@ class ScriptDoDoer(doing.DoDoer):
 
     def enter(self, doers=None, *, temp=None):
         if doers is None:
-            self.ctx.trace.log("E", self.vname, None, self.tymth)
+            tr = self.ctx.trace
+            tr.log("E", self.vname, None, self.tymth)
+            tr.entering.append(self.vname)       # its own enter context: the children are entered inside it
+            try:
+                return super().enter(doers=doers, temp=temp)
+            finally:
+                tr.entering.pop()
         return super().enter(doers=doers, temp=temp)
 
     def recur(self, tyme, deeds=None):
@@ -510,6 +571,7 @@ def run_program(prog, mode="do", collect=False):
         del tr.calls[:]
         del tr.skipped[:]
         tr.open.clear()
+        tr.nest.clear()
         tr.raised.clear()
         tr.own_return.clear()
         tr.own_return.seq.clear()
@@ -577,3 +639,24 @@ def lifecycles(ev, upto=None):
             lst.append("")
         lst[-1] += code
     return out
+
+
+def lifecycle_host(run, name, enter_seq):
+    """Name of the scheduler ('doist' or a DoDoer's name) that runs the lifecycle of `name` entered at enter_seq: a pool
+    doer can be extended into one scheduler, finish or be closed, and later be extended into another."""
+    best = None
+    for seq, n, h in run.ctx.host_log:
+        if n == name and seq <= enter_seq:
+            best = h
+    if best is None:
+        best = run.ctx.host.get(name)
+        if best is None:
+            return "?"
+    return getattr(best, "vname", None) or "doist"
+
+
+def nested_enter(run, seq_a, name_a, seq_b):
+    """True when the doer entered at seq_b was entered while the enter context of name_a (entered at seq_a < seq_b) was still
+    in progress: b was added by a call made from a's enter context (or from the enter context of a doer inside DoDoer a).
+    Which of the two 'was entered first' is then a matter of reading (a's enter began first, b's finished first)."""
+    return seq_a < seq_b and name_a in run.trace.nest.get(seq_b, ())
